@@ -1,11 +1,89 @@
 """C02 SM4 block cipher matches GB/T 32907 and decrypt inverts encrypt"""
-from .. import rules_k as K, paramalg as pa
+from .. import rules_k as K, rules_p as RP, rules_i as I, rules_g as G, frame as FR, paramalg as pa
+from ..prov import Prov, norm
+from ..builder import Canon
+
+I8 = 'each(Range::Range{0, 8})'
+IDX = ['MulWithOverflow(%s, 4).0' % I8] + ['AddWithOverflow(MulWithOverflow(%s, 4).0, %d).0' % (I8, k) for k in (1, 2, 3)]
+
+
+def rounds(var, f, key):
+    out = []
+    for r in range(4):
+        a, b, c = [(r + 1 + k) % 4 for k in range(3)]
+        out.append((str(r), 'BitXor(%s[%d], %s(BitXor(BitXor(BitXor(%s[%d], %s[%d]), %s[%d]), %s)))' % (var, r, f, var, a, var, b, var, c, key(r))))
+    return out
+
+
+def words(p):
+    return 'array{%s}' % ', '.join('from_be_bytes:u32(unwrap(try_into(index($%s, Range::Range{%d, %d}))))' % (p, 4 * k, 4 * k + 4) for k in range(4))
+
+
+def block_fn(cx, name, keyidx, what):
+    F = cx.F
+    fn = cx.fn('<impl Sm4Cipher>::' + name, 'I-SM4')
+    if fn is None:
+        return
+    P = Prov(fn, F, cut_loops=True); cn = Canon(fn, P)
+    st = [(I.shorten_vars(a), I.shorten_vars(b)) for a, b in I.stores(fn, F, 'x')]
+    want = rounds('x', 't', lambda r: '$self.rk[%s]' % keyidx(r))
+    cx.add('I-SM4', name + '/rounds', st == want, '%s: X_{i+4} = X_i ^ T(X_{i+1} ^ X_{i+2} ^ X_{i+3} ^ rk) four per iteration, 8 iterations, %s' % (name, what), fn.loc(), {'got': st, 'want': want})
+    init = [I.shorten_vars(cn.c(norm(P.rvalue(s_['rv'], b, i, 0)))) for b, i, s_ in fn.stmts() if s_['k'] == 'assign' and fn.locals[s_['lhs']['l']].get('name') == 'x' and not s_['lhs']['p']]
+    cx.add('I-SM4', name + '/load', init == [words('block')], 'the block is read as four big-endian words', fn.loc())
+    cfs = []
+    for b in FR.calls_of(fn, 'copy_from_slice'):
+        cfs.append((FR.arg_canon(fn, P, cn, b, 0), I.shorten_vars(FR.arg_canon(fn, P, cn, b, 1))))
+    want = [('index_mut(repeat{0}, Range::Range{%d, %d})' % (4 * k, 4 * k + 4), 'to_be_bytes:u32(x[%d])' % (3 - k)) for k in range(4)]
+    cx.add('I-SM4', name + '/reverse-out', cfs == want, 'output = (X35, X34, X33, X32) big-endian (reverse transform R)', fn.loc(), {'got': cfs})
+    nl = I.find_loop(fn, P, cn, 'Range::Range{0, 8}')
+    cx.add('I-SM4', name + '/trip', nl is not None, 'the round loop runs 8 times (32 rounds)', fn.loc())
 
 
 def run(cx):
-    cx.not_decided.append('equality with GB/T 32907 for all (key, block) (functional); involution follows only informally from S-SM4-REV + Feistel structure')
+    cx.not_decided.append('equality with GB/T 32907 ciphertexts for all (key, block): decided only through structural identity of every component (S-box, FK, CK, tau/L/L\', key schedule, round structure, key order) with the standard, not by evaluation')
+    F = cx.F
     K.oracle_selfcheck(cx, 'sm4')
     s = pa.sm4()
     K.k_array(cx, 'K-SM4', 'gm_sm4', 'SBOX', s.sbox, 1)
     K.k_array(cx, 'K-SM4', 'gm_sm4', 'FK', s.fk, 4)
     K.k_array(cx, 'K-SM4', 'gm_sm4', 'CK', s.ck, 4)
+    RP.p_immut(cx, 'P-IMMUT', 'gm_sm4::Sm4Cipher', ['<impl Sm4Cipher>::encrypt', '<impl Sm4Cipher>::decrypt'])
+    roots = [f.name for q in ('<impl Sm4Cipher>::new', '<impl Sm4Cipher>::encrypt', '<impl Sm4Cipher>::decrypt') for f in F.find_fns(q)]
+    if len(roots) == 3:
+        RP.p_pure(cx, 'P-PURE', 'Sm4Cipher', roots)
+    else:
+        cx.lost('P-PURE', 'Sm4Cipher', 'block cipher entry points not found')
+    # ---- component functions
+    comp = {
+        'el': 'BitXor(BitXor(BitXor(BitXor($b, rotate_left($b, 2)), rotate_left($b, 10)), rotate_left($b, 18)), rotate_left($b, 24))',
+        'el_prime': 'BitXor(BitXor($b, rotate_left($b, 13)), rotate_left($b, 23))',
+        't': 'el(tau($val))', 't_prime': 'el_prime(tau($val))',
+    }
+    for name, want in comp.items():
+        f = cx.fn('gm_sm4::' + name, 'I-SM4')
+        if f is not None:
+            r = [x[1] for x in I.returns(f, F)]
+            cx.add('I-SM4', name, r == [want], '%s = %s' % (name, r), f.loc())
+    f = cx.fn('gm_sm4::tau', 'I-SM4')
+    if f is not None:
+        st = [(a, I.shorten_vars(b)) for a, b in I.stores(f, F, 'buf')]
+        r = [I.shorten_vars(x[1]) for x in I.returns(f, F)]
+        cx.add('I-SM4', 'tau', st == [(str(k), 'SBOX[(buf[%d] as usize)]' % k) for k in range(4)] and r == ['from_be_bytes:u32(buf)'],
+               'tau applies the S-box to each of the four bytes of the word in place', f.loc(), {'stores': st, 'ret': r})
+    # ---- key schedule
+    fn = cx.fn('<impl Sm4Cipher>::new', 'I-SM4')
+    if fn is not None:
+        P = Prov(fn, F, cut_loops=True); cn = Canon(fn, P)
+        st = [(I.shorten_vars(a), I.shorten_vars(b)) for a, b in I.stores(fn, F, 'k')]
+        want = rounds('k', 't_prime', lambda r: 'CK[%s]' % IDX[r])
+        cx.add('I-SM4', 'new/schedule', st == want, "key schedule: K_{i+4} = K_i ^ T'(K_{i+1} ^ K_{i+2} ^ K_{i+3} ^ CK_i)", fn.loc(), {'got': st})
+        rk = [(I.shorten_vars(a), I.shorten_vars(b)) for a, b in I.stores(fn, F, 'rk')]
+        cx.add('I-SM4', 'new/rk', rk == [(IDX[r], 'k[%d]' % r) for r in range(4)], 'rk_i = K_{i+4}, stored in round order', fn.loc(), {'got': rk})
+        init = [cn.c(norm(P.rvalue(s_['rv'], b, i, 0))) for b, i, s_ in fn.stmts() if s_['k'] == 'assign' and fn.locals[s_['lhs']['l']].get('name') == 'k' and not s_['lhs']['p']]
+        mk = words('k')
+        cx.add('I-SM4', 'new/fk', init == ['array{%s}' % ', '.join('BitXor(%s[%d], FK[%d])' % (mk, k, k) for k in range(4))], '(K0..K3) = MK ^ FK with MK read big-endian', fn.loc())
+        rets = I.returns(fn, F, True)
+        cx.add('I-SM4', 'new/ret', [I.shorten_vars(v) for _, v in rets if v.startswith('Result::Ok')] == ['Result::Ok{Sm4Cipher::Sm4Cipher{rk}}'], 'the cipher object holds exactly the 32 round keys', fn.loc())
+    block_fn(cx, 'encrypt', lambda r: IDX[r], 'round keys in order rk0..rk31')
+    block_fn(cx, 'decrypt', lambda r: 'SubWithOverflow(31, %s).0' % IDX[r], 'round keys in reverse order rk31..rk0 (index 31 - i)')
+    cx.hold('S-SM4-REV', 'encrypt/decrypt', 'decrypt uses index 31 - (4i + r) where encrypt uses 4i + r, the same round function T and the same reverse output: decided by the two I-SM4 round templates')
